@@ -156,427 +156,446 @@ def check(ctx):
     fd = ctx.cls(ABS, "FileDescriptor")
     cm = ctx.cls(ABS, "_ConsumerMixin")
 
-    # ---- (a) K7 buffer <-> length, in every method of the class --------------------------------------
-    sites = 0
-    for name, f in methods(fd).items():
-        sites += _coupling(ctx, "FileDescriptor", name, f)
-    ctx.floor("buffer-len/coupled", sites, 4)
+    with ctx.section("buffer/length coupling"):
+        # ---- (a) K7 buffer <-> length, in every method of the class --------------------------------------
+        sites = 0
+        for name, f in methods(fd).items():
+            sites += _coupling(ctx, "FileDescriptor", name, f)
+        ctx.floor("buffer-len/coupled", sites, 4)
 
-    # ---- (b) write / writeSequence ----------------------------------------------------------------------
-    for name in ("write", "writeSequence"):
-        f = ctx.func(ABS, f"FileDescriptor.{name}")
+    with ctx.section("write and writeSequence"):
+        # ---- (b) write / writeSequence ----------------------------------------------------------------------
+        for name in ("write", "writeSequence"):
+            f = ctx.func(ABS, f"FileDescriptor.{name}")
+            g = ctx.cfg(f)
+            q = _q("FileDescriptor", name)
+            muts = [a for a in accesses(f, name, {BUF}, {"self"}) if a.kind in ("append", "extend")]
+            ctx.check(bool(muts), "write/buffers", q, f"{name}() no longer stores the data in _tempDataBuffer (bytes written while connected are dropped)")
+            lens = [a for a in accesses(f, name, {LEN}, {"self"})]
+            mp = call_nodes(g, "self._maybePauseProducer")
+            sw = call_nodes(g, "self.startWriting")
+            for a in muts:
+                ids = g.ids_of(a.node)
+                for n in ids:
+                    c = ctx.construct(q, a.node)
+                    ctx.check(implied(g, n, [{"self.connected": 1}], [{"self.connected": 0}]), "write/only-while-connected", c,
+                              "data is buffered although the descriptor is not connected (bytes written after the connection "
+                              "ended would be kept / sent on a recycled state)")
+                    ctx.check(implied(g, n, [{"self._writeDisconnected": False}], [{"self._writeDisconnected": True}]),
+                              "write/not-after-half-close", c,
+                              "data is buffered after the write side was shut down: doWrite would hand it to a socket closed for writing")
+                    w = g.must_pass([n], mp)
+                    ctx.check(bool(mp) and w is None, "write/pause-check-follows", c,
+                              "a buffering path does not reach _maybePauseProducer(): a streaming producer is not paused when the "
+                              "buffer exceeds bufferSize", witness=g.describe(w))
+                    w = g.must_pass([n], sw)
+                    ctx.check(bool(sw) and w is None, "write/wakes-writer", c,
+                              "a buffering path does not reach startWriting(): the data sits in the buffer until some other event "
+                              "registers the descriptor for writing", witness=g.describe(w))
+            # the fullness check must see the complete update
+            upd = set()
+            for a in muts + lens:
+                upd.update(g.ids_of(a.node))
+            for m in mp:
+                w = g.path([m], upd, strict=True, edge_ok=lambda a, b, l: l != "exc")
+                ctx.check(w is None, "write/pause-check-after-update", ctx.construct(q, g.node(m).ast),
+                          "_maybePauseProducer() runs before the buffer/length update is complete (fullness computed on stale length)",
+                          witness=g.describe(w))
+
+    with ctx.section("doWrite"):
+        # ---- (c) doWrite: what is sent, how offset moves ---------------------------------------------------------
+        f = ctx.func(ABS, "FileDescriptor.doWrite")
         g = ctx.cfg(f)
-        q = _q("FileDescriptor", name)
-        muts = [a for a in accesses(f, name, {BUF}, {"self"}) if a.kind in ("append", "extend")]
-        ctx.check(bool(muts), "write/buffers", q, f"{name}() no longer stores the data in _tempDataBuffer (bytes written while connected are dropped)")
-        lens = [a for a in accesses(f, name, {LEN}, {"self"})]
-        mp = call_nodes(g, "self._maybePauseProducer")
-        sw = call_nodes(g, "self.startWriting")
-        for a in muts:
-            ids = g.ids_of(a.node)
-            for n in ids:
-                c = ctx.construct(q, a.node)
-                ctx.check(implied(g, n, [{"self.connected": 1}], [{"self.connected": 0}]), "write/only-while-connected", c,
-                          "data is buffered although the descriptor is not connected (bytes written after the connection "
-                          "ended would be kept / sent on a recycled state)")
-                ctx.check(implied(g, n, [{"self._writeDisconnected": False}], [{"self._writeDisconnected": True}]),
-                          "write/not-after-half-close", c,
-                          "data is buffered after the write side was shut down: doWrite would hand it to a socket closed for writing")
-                w = g.must_pass([n], mp)
-                ctx.check(bool(mp) and w is None, "write/pause-check-follows", c,
-                          "a buffering path does not reach _maybePauseProducer(): a streaming producer is not paused when the "
-                          "buffer exceeds bufferSize", witness=g.describe(w))
-                w = g.must_pass([n], sw)
-                ctx.check(bool(sw) and w is None, "write/wakes-writer", c,
-                          "a buffering path does not reach startWriting(): the data sits in the buffer until some other event "
-                          "registers the descriptor for writing", witness=g.describe(w))
-        # the fullness check must see the complete update
-        upd = set()
-        for a in muts + lens:
-            upd.update(g.ids_of(a.node))
-        for m in mp:
-            w = g.path([m], upd, strict=True, edge_ok=lambda a, b, l: l != "exc")
-            ctx.check(w is None, "write/pause-check-after-update", ctx.construct(q, g.node(m).ast),
-                      "_maybePauseProducer() runs before the buffer/length update is complete (fullness computed on stale length)",
-                      witness=g.describe(w))
-
-    # ---- (c) doWrite: what is sent, how offset moves ---------------------------------------------------------
-    f = ctx.func(ABS, "FileDescriptor.doWrite")
-    g = ctx.cfg(f)
-    q = _q("FileDescriptor", "doWrite")
-    sends = calls_with(g, "self.writeSomeData")
-    ctx.need(sends, "self.writeSomeData(...) call in doWrite")
-    def _sent_ok(arg, n, extra_good=None):
-        """arg denotes the unsent part of dataBuffer; returns (ok, why)."""
-        why = "writeSomeData is not given the unsent part of dataBuffer"
-        if isinstance(arg, ast.Name):
-            defs = [x for x in walk_local(f) if isinstance(x, ast.Assign) and len(x.targets) == 1 and isinstance(x.targets[0], ast.Name)
-                    and x.targets[0].id == arg.id]
-            if defs:
-                res = [_sent_ok(d.value, nid) for d in defs for nid in g.ids_of(d)]
-                bad = [r for r in res if not r[0]]
-                return (not bad and bool(res)), (bad[0][1] if bad else why)
+        q = _q("FileDescriptor", "doWrite")
+        sends = calls_with(g, "self.writeSomeData")
+        ctx.need(sends, "self.writeSomeData(...) call in doWrite")
+        def _sent_ok(arg, n, extra_good=None):
+            """arg denotes the unsent part of dataBuffer; returns (ok, why)."""
+            why = "writeSomeData is not given the unsent part of dataBuffer"
+            if isinstance(arg, ast.Name):
+                defs = [x for x in walk_local(f) if isinstance(x, ast.Assign) and len(x.targets) == 1 and isinstance(x.targets[0], ast.Name)
+                        and x.targets[0].id == arg.id]
+                if defs:
+                    res = [_sent_ok(d.value, nid) for d in defs for nid in g.ids_of(d)]
+                    bad = [r for r in res if not r[0]]
+                    return (not bad and bool(res)), (bad[0][1] if bad else why)
+                return False, why
+            if isinstance(arg, ast.IfExp):
+                from sa.props._lib_d import test_value
+                a = _sent_ok(arg.body, n) if src(arg.body) != "self.dataBuffer" else (test_value(arg.test, {"self.offset": 3}) is False, why)
+                b = _sent_ok(arg.orelse, n) if src(arg.orelse) != "self.dataBuffer" else (test_value(arg.test, {"self.offset": 3}) is True, why)
+                return (a[0] and b[0]), why
+            sp = slice_parts(arg)
+            if isinstance(arg, ast.Call) and call_name(arg) == "lazyByteSlice" and [src(x) for x in arg.args] == ["self.dataBuffer", "self.offset"]:
+                return True, ""
+            if sp and src(sp[0]) in ("self.dataBuffer", "memoryview(self.dataBuffer)") and sp[1] is not None and src(sp[1]) == "self.offset" and sp[2] is None:
+                return True, ""
+            if src(arg) == "self.dataBuffer":
+                return implied(g, n, [{"self.offset": 0}], [{"self.offset": 3}]), (
+                    "the whole dataBuffer is handed to writeSomeData although offset may be non-zero: bytes already "
+                    "accepted by the OS are sent a second time")
             return False, why
-        if isinstance(arg, ast.IfExp):
-            from sa.props._lib_d import test_value
-            a = _sent_ok(arg.body, n) if src(arg.body) != "self.dataBuffer" else (test_value(arg.test, {"self.offset": 3}) is False, why)
-            b = _sent_ok(arg.orelse, n) if src(arg.orelse) != "self.dataBuffer" else (test_value(arg.test, {"self.offset": 3}) is True, why)
-            return (a[0] and b[0]), why
-        sp = slice_parts(arg)
-        if isinstance(arg, ast.Call) and call_name(arg) == "lazyByteSlice" and [src(x) for x in arg.args] == ["self.dataBuffer", "self.offset"]:
-            return True, ""
-        if sp and src(sp[0]) in ("self.dataBuffer", "memoryview(self.dataBuffer)") and sp[1] is not None and src(sp[1]) == "self.offset" and sp[2] is None:
-            return True, ""
-        if src(arg) == "self.dataBuffer":
-            return implied(g, n, [{"self.offset": 0}], [{"self.offset": 3}]), (
-                "the whole dataBuffer is handed to writeSomeData although offset may be non-zero: bytes already "
-                "accepted by the OS are sent a second time")
-        return False, why
 
-    for n, call in sends:
-        arg = call.args[0] if len(call.args) == 1 else None
-        ok, why = _sent_ok(arg, n) if arg is not None else (False, "writeSomeData is not given the unsent part of dataBuffer")
-        ctx.check(ok, "dowrite/send-from-offset", ctx.construct(q, call), why)
-    result_vars = set()
-    for n, call in sends:
-        st = g.node(n).ast
-        if isinstance(st, ast.Assign) and len(st.targets) == 1 and isinstance(st.targets[0], ast.Name) and st.value is call:
-            result_vars.add(st.targets[0].id)
-    adv = [n.id for n in g.nodes if n.kind == "stmt" and g.reachable(n.id) and isinstance(n.ast, ast.AugAssign) and is_self_attr(n.ast.target, "offset")]
-    ctx.check(len(adv) == 1, "dowrite/single-advance", q,
-              f"doWrite advances self.offset at {len(adv)} places (exactly one '+= <bytes accepted>' is required)")
-    for a in adv:
-        st = g.node(a).ast
-        c = ctx.construct(q, st)
-        other = [x for x in walk_local(f) if isinstance(x, (ast.Assign, ast.AugAssign)) and x is not st
-                 and any(isinstance(t, ast.Name) and t.id == src(st.value) for t in (x.targets if isinstance(x, ast.Assign) else [x.target]))
-                 and not (isinstance(x, ast.Assign) and isinstance(x.value, ast.Call) and call_name(x.value) == "self.writeSomeData")]
-        ctx.check(isinstance(st.op, ast.Add) and isinstance(st.value, ast.Name) and st.value.id in result_vars and not other,
-                  "dowrite/advance-by-accepted", c,
-                  "offset does not advance by exactly the count returned by writeSomeData (bytes skipped or re-sent)")
-        w = g.must_precede([n for n, _ in sends], [a])
-        ctx.check(w is None, "dowrite/advance-by-accepted", c + " | after send", "offset advances on a path that did not call writeSomeData",
-                  witness=g.describe(w))
-        rv = src(st.value)
-        ctx.check(g.guarded(a, lambda e: isinstance(e, ast.Call) and call_name(e) == "isinstance" and e.args and src(e.args[0]) == rv
-                            and "Exception" in src(e.args[1]), False),
-                  "dowrite/no-advance-on-error", c, "offset is advanced although writeSomeData returned an exception object")
-        # the error result is returned to the reactor
-        rets = [n.id for n in g.nodes if n.kind == "stmt" and isinstance(n.ast, ast.Return) and n.ast.value is not None and src(n.ast.value) == rv]
-        w = must_pass_under(g, {f"isinstance({rv}, Exception)": True}, rets, srcs=[s for n, _ in sends for s in succ_of(g, n, None)])
-        ctx.check(bool(rets) and w is None, "dowrite/error-returned", q + " | <error result of writeSomeData>",
-                  "an exception object returned by writeSomeData is not returned to the reactor (connection loss is not reported)",
-                  witness=g.describe(w))
-
-    # re-basing dataBuffer
-    zero_off = self_assigns(g, "offset", lambda v: const_value_is(v, lambda x: x == 0 and x is not False))
-    rebases = self_assigns(g, "dataBuffer")
-    ctx.floor("dowrite/rebase", len(rebases), 1)
-    for r in rebases:
-        st = g.node(r).ast
-        c = ctx.construct(q, st)
-        w = g.must_pass([r], zero_off, to=[g.exit] + [n for n, _ in sends])
-        ctx.check(w is None, "dowrite/rebase-resets-offset", c,
-                  "dataBuffer is replaced by its unsent remainder but offset is not reset to 0 before the next send / exit "
-                  "(the first bytes of the new buffer are skipped)", witness=g.describe(w))
-        v = st.value
-        if const_value_is(v, lambda x: x == b""):
-            ctx.check(implied(g, r, [_DRAINED], [_UNSENT]),
-                      "dowrite/rebase-content", c, "dataBuffer is emptied although unsent bytes remain in it")
-        else:
-            ok = (isinstance(v, ast.Call) and call_name(v) == "_concatenate"
-                  and [src(x) for x in v.args] == ["self.dataBuffer", "self.offset", "self._tempDataBuffer"])
-            ctx.check(ok, "dowrite/rebase-content", c,
-                      "the new dataBuffer is not 'unsent rest of dataBuffer (from offset) followed by _tempDataBuffer'")
-    send_ids = [n for n, _ in sends]
-    for z in zero_off:
-        c = ctx.construct(q, g.node(z).ast)
-        w = g.must_precede(rebases, [z])
-        w2 = g.path(send_ids, [z], avoid=rebases, strict=True, edge_ok=lambda a, b, l: l != "exc")
-        ctx.check(w is None and w2 is None, "dowrite/offset-reset-only-with-rebase", c,
-                  "offset is reset to 0 on a path that did not replace dataBuffer by its unsent remainder since the last send: "
-                  "bytes already handed to the OS are sent again", witness=g.describe(w or w2))
-    for n in [a for a in accesses(f, "doWrite", {BUF}, {"self"}) if a.kind in ("rebind-empty", "clear")]:
-        for nid in g.ids_of(n.node):
-            consumers = [r for r in rebases if "self._tempDataBuffer" in src(g.node(r).ast.value)]
-            w = g.must_precede(consumers, [nid])
-            ctx.check(bool(consumers) and w is None, "dowrite/temp-consumed-before-reset", ctx.construct(q, n.node),
-                      "_tempDataBuffer is emptied on a path that did not first move its content into dataBuffer (written bytes are lost)",
+        for n, call in sends:
+            arg = call.args[0] if len(call.args) == 1 else None
+            ok, why = _sent_ok(arg, n) if arg is not None else (False, "writeSomeData is not given the unsent part of dataBuffer")
+            ctx.check(ok, "dowrite/send-from-offset", ctx.construct(q, call), why)
+        result_vars = set()
+        for n, call in sends:
+            st = g.node(n).ast
+            if isinstance(st, ast.Assign) and len(st.targets) == 1 and isinstance(st.targets[0], ast.Name) and st.value is call:
+                result_vars.add(st.targets[0].id)
+        adv = [n.id for n in g.nodes if n.kind == "stmt" and g.reachable(n.id) and isinstance(n.ast, ast.AugAssign) and is_self_attr(n.ast.target, "offset")]
+        ctx.check(len(adv) == 1, "dowrite/single-advance", q,
+                  f"doWrite advances self.offset at {len(adv)} places (exactly one '+= <bytes accepted>' is required)")
+        for a in adv:
+            st = g.node(a).ast
+            c = ctx.construct(q, st)
+            other = [x for x in walk_local(f) if isinstance(x, (ast.Assign, ast.AugAssign)) and x is not st
+                     and any(isinstance(t, ast.Name) and t.id == src(st.value) for t in (x.targets if isinstance(x, ast.Assign) else [x.target]))
+                     and not (isinstance(x, ast.Assign) and isinstance(x.value, ast.Call) and call_name(x.value) == "self.writeSomeData")]
+            ctx.check(isinstance(st.op, ast.Add) and isinstance(st.value, ast.Name) and st.value.id in result_vars and not other,
+                      "dowrite/advance-by-accepted", c,
+                      "offset does not advance by exactly the count returned by writeSomeData (bytes skipped or re-sent)")
+            w = g.must_precede([n for n, _ in sends], [a])
+            ctx.check(w is None, "dowrite/advance-by-accepted", c + " | after send", "offset advances on a path that did not call writeSomeData",
+                      witness=g.describe(w))
+            rv = src(st.value)
+            ctx.check(g.guarded(a, lambda e: isinstance(e, ast.Call) and call_name(e) == "isinstance" and e.args and src(e.args[0]) == rv
+                                and "Exception" in src(e.args[1]), False),
+                      "dowrite/no-advance-on-error", c, "offset is advanced although writeSomeData returned an exception object")
+            # the error result is returned to the reactor
+            rets = [n.id for n in g.nodes if n.kind == "stmt" and isinstance(n.ast, ast.Return) and n.ast.value is not None and src(n.ast.value) == rv]
+            w = must_pass_under(g, {f"isinstance({rv}, Exception)": True}, rets, srcs=[s for n, _ in sends for s in succ_of(g, n, None)])
+            ctx.check(bool(rets) and w is None, "dowrite/error-returned", q + " | <error result of writeSomeData>",
+                      "an exception object returned by writeSomeData is not returned to the reactor (connection loss is not reported)",
                       witness=g.describe(w))
 
-    # _concatenate: old-before-new order
-    cf = ctx.func(ABS, "_concatenate")
-    params = [a.arg for a in cf.args.args]
-    rets = [x for x in walk_local(cf) if isinstance(x, ast.Return)]
-    ok = False
-    if len(params) == 3 and len(rets) == 1 and isinstance(rets[0].value, ast.Call) and isinstance(rets[0].value.func, ast.Attribute) \
-            and rets[0].value.func.attr == "join" and const_value_is(rets[0].value.func.value, lambda x: x == b"") and len(rets[0].value.args) == 1:
-        a = rets[0].value.args[0]
-        if isinstance(a, ast.BinOp) and isinstance(a.op, ast.Add) and isinstance(a.left, (ast.List, ast.Tuple)) and len(a.left.elts) == 1:
-            sp = slice_parts(a.left.elts[0])
-            ok = bool(sp and params[0] in src(sp[0]) and sp[1] is not None and src(sp[1]) == params[1] and sp[2] is None
-                      and src(a.right) == params[2])
-    ctx.check(ok, "concatenate/order", QM + "_concatenate",
-              "_concatenate does not return 'bObj[offset:] followed by the elements of bArray' (old bytes before new, each once)")
+        # re-basing dataBuffer
+        zero_off = self_assigns(g, "offset", lambda v: const_value_is(v, lambda x: x == 0 and x is not False))
+        rebases = self_assigns(g, "dataBuffer")
+        ctx.floor("dowrite/rebase", len(rebases), 1)
+        for r in rebases:
+            st = g.node(r).ast
+            c = ctx.construct(q, st)
+            w = g.must_pass([r], zero_off, to=[g.exit] + [n for n, _ in sends])
+            ctx.check(w is None, "dowrite/rebase-resets-offset", c,
+                      "dataBuffer is replaced by its unsent remainder but offset is not reset to 0 before the next send / exit "
+                      "(the first bytes of the new buffer are skipped)", witness=g.describe(w))
+            v = st.value
+            if const_value_is(v, lambda x: x == b""):
+                ctx.check(implied(g, r, [_DRAINED], [_UNSENT]),
+                          "dowrite/rebase-content", c, "dataBuffer is emptied although unsent bytes remain in it")
+            else:
+                ok = (isinstance(v, ast.Call) and call_name(v) == "_concatenate"
+                      and [src(x) for x in v.args] == ["self.dataBuffer", "self.offset", "self._tempDataBuffer"])
+                ctx.check(ok, "dowrite/rebase-content", c,
+                          "the new dataBuffer is not 'unsent rest of dataBuffer (from offset) followed by _tempDataBuffer'")
+        send_ids = [n for n, _ in sends]
+        for z in zero_off:
+            c = ctx.construct(q, g.node(z).ast)
+            w = g.must_precede(rebases, [z])
+            w2 = g.path(send_ids, [z], avoid=rebases, strict=True, edge_ok=lambda a, b, l: l != "exc")
+            ctx.check(w is None and w2 is None, "dowrite/offset-reset-only-with-rebase", c,
+                      "offset is reset to 0 on a path that did not replace dataBuffer by its unsent remainder since the last send: "
+                      "bytes already handed to the OS are sent again", witness=g.describe(w or w2))
+        for n in [a for a in accesses(f, "doWrite", {BUF}, {"self"}) if a.kind in ("rebind-empty", "clear")]:
+            for nid in g.ids_of(n.node):
+                consumers = [r for r in rebases if "self._tempDataBuffer" in src(g.node(r).ast.value)]
+                w = g.must_precede(consumers, [nid])
+                ctx.check(bool(consumers) and w is None, "dowrite/temp-consumed-before-reset", ctx.construct(q, n.node),
+                          "_tempDataBuffer is emptied on a path that did not first move its content into dataBuffer (written bytes are lost)",
+                          witness=g.describe(w))
 
-    # ---- (d) drained-only actions and the decision table ----------------------------------------------------------
-    close = call_nodes(g, "self._postLoseConnection")
-    half = call_nodes(g, "self._closeWriteConnection")
-    resume = call_nodes(g, "self.producer.resumeProducing")
-    wd_set = self_assigns(g, "_writeDisconnected", lambda v: const_value_is(v, lambda x: x is True))
-    ctx.check(bool(close), "dowrite/close-present", q, "doWrite never calls _postLoseConnection(): loseConnection() can never complete")
-    ctx.check(bool(half), "dowrite/half-close-present", q, "doWrite never calls _closeWriteConnection(): loseWriteConnection() can never complete")
-    ctx.check(bool(resume), "dowrite/resume-present", q, "doWrite never resumes the producer")
-    for kind, ns in (("close", close), ("half-close", half), ("half-close", wd_set), ("resume", resume)):
-        for n in ns:
-            c = ctx.construct(q, g.node(n).ast)
-            ok1 = _guard_after(g, n, [_DRAINED], [_UNSENT], adv)
-            ok2 = _guard_after(g, n, [_DRAINED], [_TEMP], adv)
-            what = {"close": "the connection is closed", "half-close": "the write side is shut down", "resume": "the producer is resumed"}[kind]
-            ctx.check(ok1, f"dowrite/{kind}-only-when-drained", c,
-                      f"{what} while dataBuffer still holds unsent bytes (offset < len(dataBuffer) after this write)")
-            ctx.check(ok2, f"dowrite/{kind}-only-when-drained", c + " | temp",
-                      f"{what} while _tempDataBuffer still holds bytes written before (not _tempDataLen is not required)")
-    for n in close:
-        st = g.node(n).ast
-        returned = isinstance(st, ast.Return) and st.value is not None and call_name(st.value) == "self._postLoseConnection"
-        if not returned and isinstance(st, ast.Assign) and len(st.targets) == 1 and isinstance(st.targets[0], ast.Name) \
-                and call_name(st.value) == "self._postLoseConnection":
-            v = st.targets[0].id
-            rets_v = [x.id for x in g.nodes if x.kind == "stmt" and isinstance(x.ast, ast.Return) and x.ast.value is not None and src(x.ast.value) == v]
-            returned = bool(rets_v) and g.must_pass([n], rets_v) is None
-        ctx.check(returned, "dowrite/close-returned",
-                  ctx.construct(q, st), "the result of _postLoseConnection() is not returned to the reactor: the connection is never torn down")
-    for n in half:
-        w = g.must_precede(wd_set, [n])
-        ctx.check(bool(wd_set) and w is None, "dowrite/half-close-flag-first", ctx.construct(q, g.node(n).ast),
-                  "_writeDisconnected is not set before the half-close handler runs (a loseConnection() from the handler would wait "
-                  "for a doWrite that never closes)", witness=g.describe(w))
+        # ---- (d) drained-only actions and the decision table ----------------------------------------------------------
+        close = call_nodes(g, "self._postLoseConnection")
+        half = call_nodes(g, "self._closeWriteConnection")
+        resume = call_nodes(g, "self.producer.resumeProducing")
+        wd_set = self_assigns(g, "_writeDisconnected", lambda v: const_value_is(v, lambda x: x is True))
+        ctx.check(bool(close), "dowrite/close-present", q, "doWrite never calls _postLoseConnection(): loseConnection() can never complete")
+        ctx.check(bool(half), "dowrite/half-close-present", q, "doWrite never calls _closeWriteConnection(): loseWriteConnection() can never complete")
+        ctx.check(bool(resume), "dowrite/resume-present", q, "doWrite never resumes the producer")
+        for kind, ns in (("close", close), ("half-close", half), ("half-close", wd_set), ("resume", resume)):
+            for n in ns:
+                c = ctx.construct(q, g.node(n).ast)
+                ok1 = _guard_after(g, n, [_DRAINED], [_UNSENT], adv)
+                ok2 = _guard_after(g, n, [_DRAINED], [_TEMP], adv)
+                what = {"close": "the connection is closed", "half-close": "the write side is shut down", "resume": "the producer is resumed"}[kind]
+                ctx.check(ok1, f"dowrite/{kind}-only-when-drained", c,
+                          f"{what} while dataBuffer still holds unsent bytes (offset < len(dataBuffer) after this write)")
+                ctx.check(ok2, f"dowrite/{kind}-only-when-drained", c + " | temp",
+                          f"{what} while _tempDataBuffer still holds bytes written before (not _tempDataLen is not required)")
+        for n in close:
+            st = g.node(n).ast
+            returned = isinstance(st, ast.Return) and st.value is not None and call_name(st.value) == "self._postLoseConnection"
+            if not returned and isinstance(st, ast.Assign) and len(st.targets) == 1 and isinstance(st.targets[0], ast.Name) \
+                    and call_name(st.value) == "self._postLoseConnection":
+                v = st.targets[0].id
+                rets_v = [x.id for x in g.nodes if x.kind == "stmt" and isinstance(x.ast, ast.Return) and x.ast.value is not None and src(x.ast.value) == v]
+                returned = bool(rets_v) and g.must_pass([n], rets_v) is None
+            ctx.check(returned, "dowrite/close-returned",
+                      ctx.construct(q, st), "the result of _postLoseConnection() is not returned to the reactor: the connection is never torn down")
+        for n in half:
+            w = g.must_precede(wd_set, [n])
+            ctx.check(bool(wd_set) and w is None, "dowrite/half-close-flag-first", ctx.construct(q, g.node(n).ast),
+                      "_writeDisconnected is not set before the half-close handler runs (a loseConnection() from the handler would wait "
+                      "for a doWrite that never closes)", witness=g.describe(w))
 
-    starts = [s for a in adv for s in succ_of(g, a, None)]
-    ctx.need(starts, "statement after the offset advance in doWrite")
-    drained = {"self.offset": 3, "len(self.dataBuffer)": 3, "self._tempDataLen": 0}
-    rows = 0
-    for prod in (None, NONNULL):
-        for streaming in (False, True):
-            for paused in (False, True):
-                for disc in (0, 1):
-                    for wdisc in (False, True):
-                        facts = dict(drained)
-                        facts.update({"self.producer": prod, "self.streamingProducer": streaming, "self.producerPaused": paused,
-                                      "self.disconnecting": disc, "self._writeDisconnecting": wdisc})
-                        label = (f"<drained: producer={'set' if prod else 'None'} streaming={streaming} paused={paused} "
-                                 f"disconnecting={disc} writeDisconnecting={wdisc}>")
-                        c = q + " | " + label
-                        R = reach_under(g, facts, srcs=starts)
-                        rows += 1
-                        must_resume = prod is not None and (not streaming or paused)
-                        pull = prod is not None and not streaming
-                        if must_resume:
-                            w = must_pass_under(g, facts, resume, srcs=starts)
-                            ctx.check(w is None, "dowrite/table-resume", c,
-                                      "the buffer drained but a pull producer / paused streaming producer is not asked for more data "
-                                      "(it stays silent forever)", witness=g.describe(w))
-                        if prod is None:
-                            ctx.check(not (R & set(resume)), "dowrite/table-resume", c + " | none", "resumeProducing is reached without a producer")
-                        if pull:
-                            ctx.check(not (R & set(close)) and not (R & set(half)), "dowrite/table-no-close-over-pull-producer", c,
-                                      "the connection is closed / half-closed while a non-streaming producer is still registered",
-                                      witness=g.describe(path_under(g, facts, set(close) | set(half), srcs=starts)))
-                        if not disc:
-                            ctx.check(not (R & set(close)), "dowrite/table-close-only-on-request", c,
-                                      "the connection is closed although loseConnection() was not called",
-                                      witness=g.describe(path_under(g, facts, close, srcs=starts)))
-                        if not wdisc:
-                            ctx.check(not (R & set(half)), "dowrite/table-close-only-on-request", c + " | half",
-                                      "the write side is shut down although loseWriteConnection() was not called")
-                        if prod is None and disc:
-                            w = must_pass_under(g, facts, close, srcs=starts)
-                            ctx.check(w is None, "dowrite/table-close", c,
-                                      "loseConnection() was requested, everything is sent and no producer is registered, yet doWrite does not close",
-                                      witness=g.describe(w))
-                        if prod is None and not disc and wdisc:
-                            w = must_pass_under(g, facts, half, srcs=starts)
-                            ctx.check(w is None, "dowrite/table-half-close", c,
-                                      "loseWriteConnection() was requested and everything is sent, yet doWrite does not shut the write side down",
-                                      witness=g.describe(w))
-    ctx.floor("dowrite/table", rows, 32)
-    # nothing of this under a non-drained buffer (path-sensitive version of the guard rule)
-    for facts, lab in (({"self.offset": 2, "len(self.dataBuffer)": 3, "self._tempDataLen": 0}, "dataBuffer not drained"),
-                       ({"self.offset": 3, "len(self.dataBuffer)": 3, "self._tempDataLen": 5}, "temp buffer not empty")):
-        R = reach_under(g, facts, srcs=starts)
-        bad = R & (set(close) | set(half) | set(resume))
-        ctx.check(not bad, "dowrite/table-not-drained", q + f" | <{lab}>",
-                  "close / half-close / resume is reachable while bytes are still buffered",
-                  witness=g.describe(path_under(g, facts, bad, srcs=starts)) if bad else "")
+        starts = [s for a in adv for s in succ_of(g, a, None)]
+        ctx.need(starts, "statement after the offset advance in doWrite")
+        drained = {"self.offset": 3, "len(self.dataBuffer)": 3, "self._tempDataLen": 0}
+        rows = 0
+        for prod in (None, NONNULL):
+            for streaming in (False, True):
+                for paused in (False, True):
+                    for disc in (0, 1):
+                        for wdisc in (False, True):
+                            facts = dict(drained)
+                            facts.update({"self.producer": prod, "self.streamingProducer": streaming, "self.producerPaused": paused,
+                                          "self.disconnecting": disc, "self._writeDisconnecting": wdisc})
+                            label = (f"<drained: producer={'set' if prod else 'None'} streaming={streaming} paused={paused} "
+                                     f"disconnecting={disc} writeDisconnecting={wdisc}>")
+                            c = q + " | " + label
+                            R = reach_under(g, facts, srcs=starts)
+                            rows += 1
+                            must_resume = prod is not None and (not streaming or paused)
+                            pull = prod is not None and not streaming
+                            if must_resume:
+                                w = must_pass_under(g, facts, resume, srcs=starts)
+                                ctx.check(w is None, "dowrite/table-resume", c,
+                                          "the buffer drained but a pull producer / paused streaming producer is not asked for more data "
+                                          "(it stays silent forever)", witness=g.describe(w))
+                            if prod is None:
+                                ctx.check(not (R & set(resume)), "dowrite/table-resume", c + " | none", "resumeProducing is reached without a producer")
+                            if pull:
+                                ctx.check(not (R & set(close)) and not (R & set(half)), "dowrite/table-no-close-over-pull-producer", c,
+                                          "the connection is closed / half-closed while a non-streaming producer is still registered",
+                                          witness=g.describe(path_under(g, facts, set(close) | set(half), srcs=starts)))
+                            if not disc:
+                                ctx.check(not (R & set(close)), "dowrite/table-close-only-on-request", c,
+                                          "the connection is closed although loseConnection() was not called",
+                                          witness=g.describe(path_under(g, facts, close, srcs=starts)))
+                            if not wdisc:
+                                ctx.check(not (R & set(half)), "dowrite/table-close-only-on-request", c + " | half",
+                                          "the write side is shut down although loseWriteConnection() was not called")
+                            if prod is None and disc:
+                                w = must_pass_under(g, facts, close, srcs=starts)
+                                ctx.check(w is None, "dowrite/table-close", c,
+                                          "loseConnection() was requested, everything is sent and no producer is registered, yet doWrite does not close",
+                                          witness=g.describe(w))
+                            if prod is None and not disc and wdisc:
+                                w = must_pass_under(g, facts, half, srcs=starts)
+                                ctx.check(w is None, "dowrite/table-half-close", c,
+                                          "loseWriteConnection() was requested and everything is sent, yet doWrite does not shut the write side down",
+                                          witness=g.describe(w))
+        ctx.floor("dowrite/table", rows, 32)
+        # nothing of this under a non-drained buffer (path-sensitive version of the guard rule)
+        for facts, lab in (({"self.offset": 2, "len(self.dataBuffer)": 3, "self._tempDataLen": 0}, "dataBuffer not drained"),
+                           ({"self.offset": 3, "len(self.dataBuffer)": 3, "self._tempDataLen": 5}, "temp buffer not empty")):
+            R = reach_under(g, facts, srcs=starts)
+            bad = R & (set(close) | set(half) | set(resume))
+            ctx.check(not bad, "dowrite/table-not-drained", q + f" | <{lab}>",
+                      "close / half-close / resume is reachable while bytes are still buffered",
+                      witness=g.describe(path_under(g, facts, bad, srcs=starts)) if bad else "")
 
-    # ---- (e) producer flag coupling, fullness, pausing ----------------------------------------------------------------
-    nflag = 0
-    for name, m in methods(fd).items():
-        gm = ctx.cfg(m)
-        qm = _q("FileDescriptor", name)
-        pauses = call_nodes(gm, "self.producer.pauseProducing")
-        resumes = call_nodes(gm, "self.producer.resumeProducing")
-        set_t = self_assigns(gm, "producerPaused", lambda v: const_value_is(v, lambda x: x is True))
-        set_f = self_assigns(gm, "producerPaused", lambda v: const_value_is(v, lambda x: x is False))
+    with ctx.section("_concatenate"):
+        # _concatenate: old-before-new order
+        cf = ctx.func(ABS, "_concatenate")
+        params = [a.arg for a in cf.args.args]
+        rets = [x for x in walk_local(cf) if isinstance(x, ast.Return)]
+        ok = False
+        if len(params) == 3 and len(rets) == 1 and isinstance(rets[0].value, ast.Call) and isinstance(rets[0].value.func, ast.Attribute) \
+                and rets[0].value.func.attr == "join" and const_value_is(rets[0].value.func.value, lambda x: x == b"") and len(rets[0].value.args) == 1:
+            a = rets[0].value.args[0]
+            if isinstance(a, ast.BinOp) and isinstance(a.op, ast.Add) and isinstance(a.left, (ast.List, ast.Tuple)) and len(a.left.elts) == 1:
+                sp = slice_parts(a.left.elts[0])
+                ok = bool(sp and params[0] in src(sp[0]) and sp[1] is not None and src(sp[1]) == params[1] and sp[2] is None
+                          and src(a.right) == params[2])
+        ctx.check(ok, "concatenate/order", QM + "_concatenate",
+                  "_concatenate does not return 'bObj[offset:] followed by the elements of bArray' (old bytes before new, each once)")
+
+    with ctx.section("producer pause flag"):
+        # ---- (e) producer flag coupling, fullness, pausing ----------------------------------------------------------------
+        nflag = 0
+        for name, m in methods(fd).items():
+            gm = ctx.cfg(m)
+            qm = _q("FileDescriptor", name)
+            pauses = call_nodes(gm, "self.producer.pauseProducing")
+            resumes = call_nodes(gm, "self.producer.resumeProducing")
+            set_t = self_assigns(gm, "producerPaused", lambda v: const_value_is(v, lambda x: x is True))
+            set_f = self_assigns(gm, "producerPaused", lambda v: const_value_is(v, lambda x: x is False))
+            for p in pauses:
+                nflag += 1
+                ok = bool(set_t) and (gm.must_precede(set_t, [p]) is None or gm.must_pass([p], set_t) is None)
+                ctx.check(ok, "producer-flag/pause-recorded", ctx.construct(qm, gm.node(p).ast),
+                          "the producer is paused without producerPaused = True on that path: doWrite will never resume it")
+            for s in set_t:
+                nflag += 1
+                ok = bool(pauses) and (gm.must_pass([s], pauses) is None or gm.must_precede(pauses, [s]) is None)
+                ctx.check(ok, "producer-flag/pause-recorded", ctx.construct(qm, gm.node(s).ast),
+                          "producerPaused = True without pauseProducing() on that path")
+            for r in resumes:
+                nflag += 1
+                w = gm.must_precede(set_f, [r])
+                ctx.check(bool(set_f) and w is None, "producer-flag/cleared-before-resume", ctx.construct(qm, gm.node(r).ast),
+                          "resumeProducing() is called before producerPaused is cleared: a producer that writes synchronously and gets "
+                          "paused again inside the call has its pause flag wiped afterwards and is never resumed", witness=gm.describe(w))
+                back = gm.path([r], set_f, strict=True, edge_ok=lambda a, b, l: l != "exc")
+                ctx.check(back is None, "producer-flag/cleared-before-resume", ctx.construct(qm, gm.node(r).ast) + " | after",
+                          "producerPaused is cleared after the resumeProducing() call-out", witness=gm.describe(back))
+            for s in set_f:
+                nflag += 1
+                ctx.check(bool(resumes) and gm.must_pass([s], resumes) is None, "producer-flag/cleared-before-resume",
+                          ctx.construct(qm, gm.node(s).ast), "producerPaused is cleared without resuming the producer")
+        ctx.floor("producer-flag", nflag, 2)
+
+    with ctx.section("_isSendBufferFull"):
+        # ---- fullness
+        f = ctx.func(ABS, "FileDescriptor._isSendBufferFull")
+        q2 = _q("FileDescriptor", "_isSendBufferFull")
+        rets = [x for x in walk_local(f) if isinstance(x, ast.Return) and x.value is not None]
+        ctx.need(len(rets) == 1, "single return in _isSendBufferFull")
+        nf = lincmp(rets[0].value)
+        want = [lin_expect({"len(self.dataBuffer)": 1, "self._tempDataLen": 1, "self.bufferSize": -1}, 1),
+                lin_expect({"len(self.dataBuffer)": 1, "self.offset": -1, "self._tempDataLen": 1, "self.bufferSize": -1}, 1)]
+        ctx.check(nf in want, "full/boundary", ctx.construct(q2, rets[0]),
+                  "the send buffer is not reported full exactly when 'bytes in dataBuffer + _tempDataLen > bufferSize' "
+                  f"(normal form found: {sorted(nf[0]) if nf else None} >= {nf[1] if nf else None})")
+
+    with ctx.section("_maybePauseProducer"):
+        # ---- pausing
+        f = ctx.func(ABS, "FileDescriptor._maybePauseProducer")
+        g2 = ctx.cfg(f)
+        q2 = _q("FileDescriptor", "_maybePauseProducer")
+        pauses = call_nodes(g2, "self.producer.pauseProducing")
+        ctx.check(bool(pauses), "pause/present", q2, "_maybePauseProducer never pauses the producer")
         for p in pauses:
-            nflag += 1
-            ok = bool(set_t) and (gm.must_precede(set_t, [p]) is None or gm.must_pass([p], set_t) is None)
-            ctx.check(ok, "producer-flag/pause-recorded", ctx.construct(qm, gm.node(p).ast),
-                      "the producer is paused without producerPaused = True on that path: doWrite will never resume it")
-        for s in set_t:
-            nflag += 1
-            ok = bool(pauses) and (gm.must_pass([s], pauses) is None or gm.must_precede(pauses, [s]) is None)
-            ctx.check(ok, "producer-flag/pause-recorded", ctx.construct(qm, gm.node(s).ast),
-                      "producerPaused = True without pauseProducing() on that path")
-        for r in resumes:
-            nflag += 1
-            w = gm.must_precede(set_f, [r])
-            ctx.check(bool(set_f) and w is None, "producer-flag/cleared-before-resume", ctx.construct(qm, gm.node(r).ast),
-                      "resumeProducing() is called before producerPaused is cleared: a producer that writes synchronously and gets "
-                      "paused again inside the call has its pause flag wiped afterwards and is never resumed", witness=gm.describe(w))
-            back = gm.path([r], set_f, strict=True, edge_ok=lambda a, b, l: l != "exc")
-            ctx.check(back is None, "producer-flag/cleared-before-resume", ctx.construct(qm, gm.node(r).ast) + " | after",
-                      "producerPaused is cleared after the resumeProducing() call-out", witness=gm.describe(back))
-        for s in set_f:
-            nflag += 1
-            ctx.check(bool(resumes) and gm.must_pass([s], resumes) is None, "producer-flag/cleared-before-resume",
-                      ctx.construct(qm, gm.node(s).ast), "producerPaused is cleared without resuming the producer")
-    ctx.floor("producer-flag", nflag, 2)
+            c = ctx.construct(q2, g2.node(p).ast)
+            ctx.check(implied(g2, p, [{"self.producer": NONNULL}], [{"self.producer": None}]), "pause/only-with-producer", c,
+                      "pauseProducing() reachable without a registered producer")
+            ctx.check(implied(g2, p, [{"self.streamingProducer": True}], [{"self.streamingProducer": False}]), "pause/only-streaming", c,
+                      "a pull (non-streaming) producer is paused: it has no pauseProducing contract and is driven by resumeProducing only")
+            ctx.check(implied(g2, p, [{"self._isSendBufferFull()": True}], [{"self._isSendBufferFull()": False}]), "pause/only-when-full", c,
+                      "the producer is paused although the buffer is not over bufferSize")
+        w = must_pass_under(g2, {"self.producer": NONNULL, "self.streamingProducer": True, "self._isSendBufferFull()": True}, pauses)
+        ctx.check(w is None, "pause/when-full", q2 + " | <streaming producer, buffer full>",
+                  "a streaming producer is not paused although buffered data exceeds bufferSize", witness=g2.describe(w))
 
-    f = ctx.func(ABS, "FileDescriptor._isSendBufferFull")
-    q2 = _q("FileDescriptor", "_isSendBufferFull")
-    rets = [x for x in walk_local(f) if isinstance(x, ast.Return) and x.value is not None]
-    ctx.need(len(rets) == 1, "single return in _isSendBufferFull")
-    nf = lincmp(rets[0].value)
-    want = [lin_expect({"len(self.dataBuffer)": 1, "self._tempDataLen": 1, "self.bufferSize": -1}, 1),
-            lin_expect({"len(self.dataBuffer)": 1, "self.offset": -1, "self._tempDataLen": 1, "self.bufferSize": -1}, 1)]
-    ctx.check(nf in want, "full/boundary", ctx.construct(q2, rets[0]),
-              "the send buffer is not reported full exactly when 'bytes in dataBuffer + _tempDataLen > bufferSize' "
-              f"(normal form found: {sorted(nf[0]) if nf else None} >= {nf[1] if nf else None})")
+    with ctx.section("loseConnection"):
+        # ---- (f) close requests, producer registration ---------------------------------------------------------------------
+        f = ctx.func(ABS, "FileDescriptor.loseConnection")
+        g3 = ctx.cfg(f)
+        q3 = _q("FileDescriptor", "loseConnection")
+        hard = call_nodes(g3, "self.connectionLost", "self._postLoseConnection", "self._closeSocket")
+        for h in hard:
+            ctx.check(implied(g3, h, [{"self._writeDisconnected": True}], [{"self._writeDisconnected": False}]), "lose/no-immediate-close",
+                      ctx.construct(q3, g3.node(h).ast),
+                      "loseConnection() tears the connection down at once although buffered data may remain (only allowed when the write side is already shut)")
+        facts = {"self.connected": 1, "self.disconnecting": 0, "self._writeDisconnected": False}
+        dset = self_assigns(g3, "disconnecting", lambda v: const_value_is(v, bool))
+        sw = call_nodes(g3, "self.startWriting")
+        w = must_pass_under(g3, facts, dset)
+        ctx.check(bool(dset) and w is None, "lose/records-request", q3 + " | <connected, first request>",
+                  "loseConnection() does not set self.disconnecting: doWrite will never close", witness=g3.describe(w))
+        w = must_pass_under(g3, facts, sw)
+        ctx.check(bool(sw) and w is None, "lose/wakes-writer", q3 + " | <connected, first request>",
+                  "loseConnection() does not call startWriting(): with an empty buffer no doWrite happens and the connection never closes",
+                  witness=g3.describe(w))
+        R = reach_under(g3, {"self.connected": 0})
+        ctx.check(not (R & (set(hard) | set(dset))), "lose/only-while-connected", q3 + " | <not connected>",
+                  "loseConnection() acts on a descriptor that is no longer connected (a second connectionLost is possible)")
 
-    f = ctx.func(ABS, "FileDescriptor._maybePauseProducer")
-    g2 = ctx.cfg(f)
-    q2 = _q("FileDescriptor", "_maybePauseProducer")
-    pauses = call_nodes(g2, "self.producer.pauseProducing")
-    ctx.check(bool(pauses), "pause/present", q2, "_maybePauseProducer never pauses the producer")
-    for p in pauses:
-        c = ctx.construct(q2, g2.node(p).ast)
-        ctx.check(implied(g2, p, [{"self.producer": NONNULL}], [{"self.producer": None}]), "pause/only-with-producer", c,
-                  "pauseProducing() reachable without a registered producer")
-        ctx.check(implied(g2, p, [{"self.streamingProducer": True}], [{"self.streamingProducer": False}]), "pause/only-streaming", c,
-                  "a pull (non-streaming) producer is paused: it has no pauseProducing contract and is driven by resumeProducing only")
-        ctx.check(implied(g2, p, [{"self._isSendBufferFull()": True}], [{"self._isSendBufferFull()": False}]), "pause/only-when-full", c,
-                  "the producer is paused although the buffer is not over bufferSize")
-    w = must_pass_under(g2, {"self.producer": NONNULL, "self.streamingProducer": True, "self._isSendBufferFull()": True}, pauses)
-    ctx.check(w is None, "pause/when-full", q2 + " | <streaming producer, buffer full>",
-              "a streaming producer is not paused although buffered data exceeds bufferSize", witness=g2.describe(w))
+    with ctx.section("loseWriteConnection"):
+        # ---- loseWriteConnection
+        f = ctx.func(ABS, "FileDescriptor.loseWriteConnection")
+        g4 = ctx.cfg(f)
+        q4 = _q("FileDescriptor", "loseWriteConnection")
+        ws = self_assigns(g4, "_writeDisconnecting", lambda v: const_value_is(v, lambda x: x is True))
+        w1 = g4.must_pass([g4.entry], ws)
+        w2 = g4.must_pass([g4.entry], call_nodes(g4, "self.startWriting"))
+        ctx.check(bool(ws) and w1 is None, "lose-write/records-request", q4, "loseWriteConnection() does not set _writeDisconnecting")
+        ctx.check(w2 is None, "lose-write/wakes-writer", q4, "loseWriteConnection() does not call startWriting(): the half-close never happens on an idle connection")
+        ctx.check(not call_nodes(g4, "self._closeWriteConnection", "self.connectionLost"), "lose-write/no-immediate-close", q4,
+                  "loseWriteConnection() shuts the write side down at once, before buffered data is sent")
 
-    # ---- (f) close requests, producer registration ---------------------------------------------------------------------
-    f = ctx.func(ABS, "FileDescriptor.loseConnection")
-    g3 = ctx.cfg(f)
-    q3 = _q("FileDescriptor", "loseConnection")
-    hard = call_nodes(g3, "self.connectionLost", "self._postLoseConnection", "self._closeSocket")
-    for h in hard:
-        ctx.check(implied(g3, h, [{"self._writeDisconnected": True}], [{"self._writeDisconnected": False}]), "lose/no-immediate-close",
-                  ctx.construct(q3, g3.node(h).ast),
-                  "loseConnection() tears the connection down at once although buffered data may remain (only allowed when the write side is already shut)")
-    facts = {"self.connected": 1, "self.disconnecting": 0, "self._writeDisconnected": False}
-    dset = self_assigns(g3, "disconnecting", lambda v: const_value_is(v, bool))
-    sw = call_nodes(g3, "self.startWriting")
-    w = must_pass_under(g3, facts, dset)
-    ctx.check(bool(dset) and w is None, "lose/records-request", q3 + " | <connected, first request>",
-              "loseConnection() does not set self.disconnecting: doWrite will never close", witness=g3.describe(w))
-    w = must_pass_under(g3, facts, sw)
-    ctx.check(bool(sw) and w is None, "lose/wakes-writer", q3 + " | <connected, first request>",
-              "loseConnection() does not call startWriting(): with an empty buffer no doWrite happens and the connection never closes",
-              witness=g3.describe(w))
-    R = reach_under(g3, {"self.connected": 0})
-    ctx.check(not (R & (set(hard) | set(dset))), "lose/only-while-connected", q3 + " | <not connected>",
-              "loseConnection() acts on a descriptor that is no longer connected (a second connectionLost is possible)")
+    with ctx.section("unregisterProducer"):
+        # ---- unregisterProducer
+        f = ctx.func(ABS, "_ConsumerMixin.unregisterProducer")
+        g5 = ctx.cfg(f)
+        q5 = _q("_ConsumerMixin", "unregisterProducer")
+        clr = self_assigns(g5, "producer", lambda v: const_value_is(v, lambda x: x is None))
+        ctx.check(bool(clr) and g5.must_pass([g5.entry], clr) is None, "unregister/clears", q5, "unregisterProducer() leaves self.producer set")
+        sw = call_nodes(g5, "self.startWriting")
+        w = must_pass_under(g5, {"self.connected": 1, "self.disconnecting": 1}, sw)
+        ctx.check(bool(sw) and w is None, "unregister/wakes-pending-close", q5 + " | <connected, disconnecting>",
+                  "a close postponed because of the producer is not re-armed when the producer unregisters: the connection never closes",
+                  witness=g5.describe(w))
 
-    f = ctx.func(ABS, "FileDescriptor.loseWriteConnection")
-    g4 = ctx.cfg(f)
-    q4 = _q("FileDescriptor", "loseWriteConnection")
-    ws = self_assigns(g4, "_writeDisconnecting", lambda v: const_value_is(v, lambda x: x is True))
-    w1 = g4.must_pass([g4.entry], ws)
-    w2 = g4.must_pass([g4.entry], call_nodes(g4, "self.startWriting"))
-    ctx.check(bool(ws) and w1 is None, "lose-write/records-request", q4, "loseWriteConnection() does not set _writeDisconnecting")
-    ctx.check(w2 is None, "lose-write/wakes-writer", q4, "loseWriteConnection() does not call startWriting(): the half-close never happens on an idle connection")
-    ctx.check(not call_nodes(g4, "self._closeWriteConnection", "self.connectionLost"), "lose-write/no-immediate-close", q4,
-              "loseWriteConnection() shuts the write side down at once, before buffered data is sent")
+    with ctx.section("registerProducer"):
+        # ---- registerProducer
+        f = ctx.func(ABS, "_ConsumerMixin.registerProducer")
+        g6 = ctx.cfg(f)
+        q6 = _q("_ConsumerMixin", "registerProducer")
+        pparam = f.args.args[1].arg if len(f.args.args) >= 3 else "producer"
+        sparam = f.args.args[2].arg if len(f.args.args) >= 3 else "streaming"
+        store = self_assigns(g6, "producer", lambda v: src(v) == pparam)
+        sstore = self_assigns(g6, "streamingProducer", lambda v: src(v) == sparam)
+        ctx.check(bool(store), "register/stores", q6, "registerProducer() does not store the producer")
+        for s in store:
+            c = ctx.construct(q6, g6.node(s).ast)
+            ctx.check(implied(g6, s, [{"self.producer": None}], [{"self.producer": NONNULL}]), "register/one-producer", c,
+                      "a second producer silently replaces a registered one")
+            ctx.check(implied(g6, s, [{"self.disconnected": 0}], [{"self.disconnected": 1}]), "register/not-when-disconnected", c,
+                      "a producer is registered on a disconnected descriptor (it would never be stopped)")
+            ok = bool(sstore) and (g6.must_pass([s], sstore) is None or g6.must_precede(sstore, [s], exc=False) is None)
+            ctx.check(ok, "register/streaming-recorded", c,
+                      "the producer is stored without recording whether it is streaming: a push producer is then driven as a pull producer "
+                      "(or the reverse)")
+        kick = call_nodes(g6, f"{pparam}.resumeProducing", "self.producer.resumeProducing")
+        w = must_pass_under(g6, {"self.producer": None, "self.disconnected": 0, sparam: False}, kick)
+        ctx.check(bool(kick) and w is None, "register/pull-producer-started", q6 + " | <pull producer>",
+                  "a pull producer is registered but never asked for its first chunk", witness=g6.describe(w))
+        R = reach_under(g6, {"self.producer": None, "self.disconnected": 0, sparam: True})
+        ctx.check(not (R & set(kick)), "register/push-producer-not-kicked", q6 + " | <push producer>",
+                  "resumeProducing() is called on a streaming producer at registration")
+        stop = call_nodes(g6, f"{pparam}.stopProducing")
+        w = must_pass_under(g6, {"self.producer": None, "self.disconnected": 1}, stop)
+        ctx.check(bool(stop) and w is None, "register/stopped-when-disconnected", q6 + " | <disconnected>",
+                  "a producer registered after the connection was lost is not told to stop", witness=g6.describe(w))
 
-    f = ctx.func(ABS, "_ConsumerMixin.unregisterProducer")
-    g5 = ctx.cfg(f)
-    q5 = _q("_ConsumerMixin", "unregisterProducer")
-    clr = self_assigns(g5, "producer", lambda v: const_value_is(v, lambda x: x is None))
-    ctx.check(bool(clr) and g5.must_pass([g5.entry], clr) is None, "unregister/clears", q5, "unregisterProducer() leaves self.producer set")
-    sw = call_nodes(g5, "self.startWriting")
-    w = must_pass_under(g5, {"self.connected": 1, "self.disconnecting": 1}, sw)
-    ctx.check(bool(sw) and w is None, "unregister/wakes-pending-close", q5 + " | <connected, disconnecting>",
-              "a close postponed because of the producer is not re-armed when the producer unregisters: the connection never closes",
-              witness=g5.describe(w))
+    with ctx.section("connectionLost"):
+        # ---- connectionLost
+        f = ctx.func(ABS, "FileDescriptor.connectionLost")
+        g7 = ctx.cfg(f)
+        q7 = _q("FileDescriptor", "connectionLost")
+        c0 = self_assigns(g7, "connected", lambda v: const_value_is(v, lambda x: not x))
+        d1 = self_assigns(g7, "disconnected", lambda v: const_value_is(v, bool))
+        ctx.check(bool(c0) and g7.must_pass([g7.entry], c0) is None, "lost/clears-connected", q7,
+                  "connectionLost() leaves self.connected set: later write() calls keep buffering for a dead descriptor")
+        ctx.check(bool(d1) and g7.must_pass([g7.entry], d1) is None, "lost/sets-disconnected", q7, "connectionLost() does not set self.disconnected")
+        stop = call_nodes(g7, "self.producer.stopProducing")
+        w = must_pass_under(g7, {"self.producer": NONNULL}, stop)
+        ctx.check(bool(stop) and w is None, "lost/stops-producer", q7 + " | <producer registered>",
+                  "a registered producer is not stopped when the connection is lost", witness=g7.describe(w))
 
-    f = ctx.func(ABS, "_ConsumerMixin.registerProducer")
-    g6 = ctx.cfg(f)
-    q6 = _q("_ConsumerMixin", "registerProducer")
-    pparam = f.args.args[1].arg if len(f.args.args) >= 3 else "producer"
-    sparam = f.args.args[2].arg if len(f.args.args) >= 3 else "streaming"
-    store = self_assigns(g6, "producer", lambda v: src(v) == pparam)
-    sstore = self_assigns(g6, "streamingProducer", lambda v: src(v) == sparam)
-    ctx.check(bool(store), "register/stores", q6, "registerProducer() does not store the producer")
-    for s in store:
-        c = ctx.construct(q6, g6.node(s).ast)
-        ctx.check(implied(g6, s, [{"self.producer": None}], [{"self.producer": NONNULL}]), "register/one-producer", c,
-                  "a second producer silently replaces a registered one")
-        ctx.check(implied(g6, s, [{"self.disconnected": 0}], [{"self.disconnected": 1}]), "register/not-when-disconnected", c,
-                  "a producer is registered on a disconnected descriptor (it would never be stopped)")
-        ok = bool(sstore) and (g6.must_pass([s], sstore) is None or g6.must_precede(sstore, [s], exc=False) is None)
-        ctx.check(ok, "register/streaming-recorded", c,
-                  "the producer is stored without recording whether it is streaming: a push producer is then driven as a pull producer "
-                  "(or the reverse)")
-    kick = call_nodes(g6, f"{pparam}.resumeProducing", "self.producer.resumeProducing")
-    w = must_pass_under(g6, {"self.producer": None, "self.disconnected": 0, sparam: False}, kick)
-    ctx.check(bool(kick) and w is None, "register/pull-producer-started", q6 + " | <pull producer>",
-              "a pull producer is registered but never asked for its first chunk", witness=g6.describe(w))
-    R = reach_under(g6, {"self.producer": None, "self.disconnected": 0, sparam: True})
-    ctx.check(not (R & set(kick)), "register/push-producer-not-kicked", q6 + " | <push producer>",
-              "resumeProducing() is called on a streaming producer at registration")
-    stop = call_nodes(g6, f"{pparam}.stopProducing")
-    w = must_pass_under(g6, {"self.producer": None, "self.disconnected": 1}, stop)
-    ctx.check(bool(stop) and w is None, "register/stopped-when-disconnected", q6 + " | <disconnected>",
-              "a producer registered after the connection was lost is not told to stop", witness=g6.describe(w))
-
-    f = ctx.func(ABS, "FileDescriptor.connectionLost")
-    g7 = ctx.cfg(f)
-    q7 = _q("FileDescriptor", "connectionLost")
-    c0 = self_assigns(g7, "connected", lambda v: const_value_is(v, lambda x: not x))
-    d1 = self_assigns(g7, "disconnected", lambda v: const_value_is(v, bool))
-    ctx.check(bool(c0) and g7.must_pass([g7.entry], c0) is None, "lost/clears-connected", q7,
-              "connectionLost() leaves self.connected set: later write() calls keep buffering for a dead descriptor")
-    ctx.check(bool(d1) and g7.must_pass([g7.entry], d1) is None, "lost/sets-disconnected", q7, "connectionLost() does not set self.disconnected")
-    stop = call_nodes(g7, "self.producer.stopProducing")
-    w = must_pass_under(g7, {"self.producer": NONNULL}, stop)
-    ctx.check(bool(stop) and w is None, "lost/stops-producer", q7 + " | <producer registered>",
-              "a registered producer is not stopped when the connection is lost", witness=g7.describe(w))
-
-    # ---- who may write -----------------------------------------------------------------------------------------------------
-    allow = {
-        "offset": {"FileDescriptor.doWrite"}, "dataBuffer": {"FileDescriptor.doWrite"},
-        BUF: {"FileDescriptor.__init__", "FileDescriptor.write", "FileDescriptor.writeSequence", "FileDescriptor.doWrite"},
-        LEN: {"FileDescriptor.__init__", "FileDescriptor.write", "FileDescriptor.writeSequence", "FileDescriptor.doWrite"},
-        "producerPaused": {"FileDescriptor.doWrite", "FileDescriptor._maybePauseProducer"},
-        "_writeDisconnected": {"FileDescriptor.doWrite"}, "_writeDisconnecting": {"FileDescriptor.loseWriteConnection"},
-        "disconnecting": {"FileDescriptor.loseConnection"},
-        "connected": {"FileDescriptor.connectionLost"}, "disconnected": {"FileDescriptor.connectionLost"},
-        "producer": {"_ConsumerMixin.registerProducer", "_ConsumerMixin.unregisterProducer", "FileDescriptor.connectionLost"},
-        "streamingProducer": {"_ConsumerMixin.registerProducer"},
-    }
-    acc = class_accesses(mod, fd, set(allow), {"self"}) + class_accesses(mod, cm, set(allow), {"self"})
-    for a in acc:
-        ctx.check(a.func in allow[a.attr], "who-may-write/" + a.attr, ctx.construct(QM + a.func, a.node),
-                  f"self.{a.attr} is modified outside the functions that own the write-buffer protocol")
-    ctx.floor("who-may-write", len(acc), 20)
+    with ctx.section("who may write"):
+        # ---- who may write -----------------------------------------------------------------------------------------------------
+        allow = {
+            "offset": {"FileDescriptor.doWrite"}, "dataBuffer": {"FileDescriptor.doWrite"},
+            BUF: {"FileDescriptor.__init__", "FileDescriptor.write", "FileDescriptor.writeSequence", "FileDescriptor.doWrite"},
+            LEN: {"FileDescriptor.__init__", "FileDescriptor.write", "FileDescriptor.writeSequence", "FileDescriptor.doWrite"},
+            "producerPaused": {"FileDescriptor.doWrite", "FileDescriptor._maybePauseProducer"},
+            "_writeDisconnected": {"FileDescriptor.doWrite"}, "_writeDisconnecting": {"FileDescriptor.loseWriteConnection"},
+            "disconnecting": {"FileDescriptor.loseConnection"},
+            "connected": {"FileDescriptor.connectionLost"}, "disconnected": {"FileDescriptor.connectionLost"},
+            "producer": {"_ConsumerMixin.registerProducer", "_ConsumerMixin.unregisterProducer", "FileDescriptor.connectionLost"},
+            "streamingProducer": {"_ConsumerMixin.registerProducer"},
+        }
+        acc = class_accesses(mod, fd, set(allow), {"self"}) + class_accesses(mod, cm, set(allow), {"self"})
+        for a in acc:
+            ctx.check(a.func in allow[a.attr], "who-may-write/" + a.attr, ctx.construct(QM + a.func, a.node),
+                      f"self.{a.attr} is modified outside the functions that own the write-buffer protocol")
+        ctx.floor("who-may-write", len(acc), 20)
 
 
 _DW = "FileDescriptor.doWrite"
